@@ -553,24 +553,30 @@ def build_request(src_bytes, res, inputs_hex, capture):
     return line, sg, og
 
 
-def make_inputs(rng, src_bytes, k):
-    """k input sets for the graph inputs of a source model: all-min, all-max, zero point, then random
-    (uniform / extremes-heavy)."""
+def input_specs(src_bytes):
+    """(type, element count, zero point) of every graph input of a source model"""
     model = fbwalk.parse(src_bytes)
     sg = model["subgraphs"][0]
+    specs = []
+    for i in sg["inputs"]:
+        t = sg["tensors"][i]
+        if t["type"] not in QRANGE:
+            raise NotSimulated(f"input_type_{t['type']}")
+        n = int(np.prod(t["shape"])) if t["shape"] else 1
+        _sc, zp = qparams(t)
+        specs.append((t["type"], n, zp[0] if zp else 0))
+    return specs
+
+
+def inputs_from_specs(rng, specs, k, first=0):
+    """k input sets: random, all-min, all-max, extremes-heavy, zero point, near zero point, then random again"""
     sets = []
-    for j in range(k):
+    for j in range(first, first + k):
         one = []
-        for i in sg["inputs"]:
-            t = sg["tensors"][i]
-            if t["type"] not in QRANGE:
-                raise NotSimulated(f"input_type_{t['type']}")
-            lo, hi = QRANGE[t["type"]]
-            n = int(np.prod(t["shape"])) if t["shape"] else 1
-            _sc, zp = qparams(t)
-            z = zp[0] if zp else 0
+        for ty, n, z in specs:
+            lo, hi = QRANGE[ty]
             r = np.random.RandomState(rng.getrandbits(32))
-            mode = ["random", "min", "max", "extremes", "zp", "near_zp"][j % 6]
+            mode = ["random", "min", "max", "extremes", "zp", "near_zp"][j % 6] if j < 6 else rng.choice(["random", "random", "extremes", "near_zp", "near_max"])
             if mode == "min":
                 v = np.full(n, lo)
             elif mode == "max":
@@ -581,9 +587,22 @@ def make_inputs(rng, src_bytes, k):
                 v = r.choice([lo, hi, z, lo + 1, hi - 1], n)
             elif mode == "near_zp":
                 v = np.clip(z + r.randint(-6, 7, n), lo, hi)
+            elif mode == "near_max":
+                v = np.clip(hi - r.randint(0, 40, n), lo, hi)
             else:
                 v = r.randint(lo, hi + 1, n)
-            np_t = {"int8": "i1", "uint8": "u1", "int16": "<i2"}[t["type"]]
+            np_t = {"int8": "i1", "uint8": "u1", "int16": "<i2"}[ty]
             one.append(v.astype(np_t).tobytes().hex())
         sets.append(one)
     return sets
+
+
+def make_inputs(rng, src_bytes, k):
+    """k input sets for the graph inputs of a source model"""
+    return inputs_from_specs(rng, input_specs(src_bytes), k)
+
+
+def with_inputs(line, sets):
+    """the request line with another list of input sets"""
+    toks = line.split(" ")
+    return " ".join(("data=" + ";".join("/".join(s) for s in sets)) if t.startswith("data=") else t for t in toks)
